@@ -136,6 +136,38 @@ pub fn lifecycle(e: &Exec, ops: &[OpRec]) -> V {
         }
         st.prev = state.clone();
     }
+    // the catch exception applies once per task: count the revivals in the write trace
+    let mut revivals: HashMap<(String, String), usize> = HashMap::new();
+    for (i, t) in e.trace.iter().enumerate() {
+        if let Tr::StateWrite {
+            pid,
+            tid,
+            nid,
+            kind,
+            old,
+            new,
+            ..
+        } = t
+        {
+            if old == "error" && new == "running" {
+                let n = revivals.entry((pid.clone(), tid.clone())).or_default();
+                *n += 1;
+                if *n == 2 {
+                    push(
+                        &mut v,
+                        format!("revived-twice/{kind}/{}", action_of(ops, i)),
+                        format!("{kind} {nid} ({pid}:{tid}) was put back from error to running a second time"),
+                    );
+                }
+            } else if is_terminal_state(old) && old != "error" && !is_terminal_state(new) {
+                push(
+                    &mut v,
+                    format!("reopened/{old}->{new}/{kind}/{}", action_of(ops, i)),
+                    format!("{kind} {nid} ({pid}:{tid}) left the terminal state {old} for {new}"),
+                );
+            }
+        }
+    }
     // what the API shows at quiescent points must agree with the reports: a task seen terminal stays so
     let mut seen: HashMap<(String, String), String> = HashMap::new();
     for q in &e.points {
